@@ -108,7 +108,7 @@ type AcrCase struct {
 
 var algos = map[string]int{"downpass": acr.ALGO_DOWNPASS, "deltran": acr.ALGO_DELTRAN, "acctran": acr.ALGO_ACCTRAN}
 
-var stateNamePool = []string{"A", "B", "C", "D", "E", "F", "st1", "state two", "x/y", "0", "1", "A;B", "é"}
+var stateNamePool = []string{"A", "B", "C", "D", "E", "F", "st1", "state two", "x/y", "0", "1", "A;B", "é", "2", "10", "19A", "14"}
 
 func genAcr(t *rapid.T, thorough bool) AcrCase {
 	// input trees may already carry node comments (annotations of an earlier run): the states written
